@@ -901,3 +901,9 @@ def run(ctx: Ctx, rep: Report, tier: str) -> None:
     r20_4(ctx, rep, sl)
     r20_5(ctx, rep, sl)
     r20_6(ctx, rep)
+    # R20.7: what a constructor stores renders text it accepts again — structural parts decided elsewhere
+    from .c06 import normaliser_fixed_point
+    from .c08 import validated_is_returned
+
+    validated_is_returned(ctx, rep, rid="R20.7")
+    normaliser_fixed_point(ctx, rep, rid="R20.7")
